@@ -354,6 +354,23 @@ func (fr *Frame) modifiedRoots(lp *Loop) (map[ssa.Value]bool, bool) {
 						}
 					}
 				}
+				if callee == nil || len(callee.FreeVars) > 0 {
+					// a call through a function value (a closure held in a variable, possibly one
+					// that calls further closures): every captured variable that some closure of
+					// this function may write is written by the loop
+					for _, b2 := range fr.fn.Blocks {
+						for _, in2 := range b2.Instrs {
+							if mc, ok := in2.(*ssa.MakeClosure); ok {
+								cfn := mc.Fn.(*ssa.Function)
+								for i, bnd := range mc.Bindings {
+									if fr.ex.mayModifyFreeVar(cfn, i, nil) {
+										mark(bnd)
+									}
+								}
+							}
+						}
+					}
+				}
 			}
 		}
 	}
